@@ -17,10 +17,13 @@
 // top of the int range; totals beyond it), session.go (uninterrupted call
 // sequences from one caller buffer with one ingredient changed per call,
 // panicking and re-entrant callbacks, kept results), fdjudge.go (FindDpSolvers
-// oracle interface and judge shared by them).
+// oracle interface and judge shared by them), mid.go (the sizes between the
+// wide and the big engines, graphs with large neighbourhoods, explicit nil
+// tie-breaker), long.go (more than 255 values for FindDpSolvers, Knapsack
+// tables of more than 2^15 / 2^16 cells in the quick tier).
 //
 // Files: main.go (engines, shared helpers), knapsack.go, finddp.go, cliques.go,
-// big.go, grow.go, huge.go, session.go, fdjudge.go.
+// big.go, grow.go, huge.go, session.go, fdjudge.go, mid.go, long.go.
 package main
 
 import (
@@ -230,7 +233,7 @@ func mkBreaker(kind int, salt uint64, st *brStat) func(old, new []item) bool {
 
 func main() {
 	r := ev.New("C18")
-	r.Rule("one case = one generated instance: (a) item list (weights >= 0 from small alphabets / zero / heavier than the limit, values > 0 from small alphabets / proportional to weight) + limit (0, small, around the weight sum) run through Knapsack with no tie-breaker and with five tie-breakers; (b) value list + maxValue run through FindDpSolvers for allowOverOnce in {false,true} x the same six tie-breaker settings, followed by Best/BestAllowMinOverflow queries; (c) an undirected simple graph (G(n,p) at all densities, multipartite, clique unions, paths/cycles/stars, isolated vertices, empty) built in a seeded insertion order and enumerated several times (Go's map order varies between calls). distinct = hash of the instance (items+limit, or adjacency matrix); non-trivial = at least 2 items / 2 vertices; (d) further engines, one per situation that do-then-observe cases do not contain: big (65..300 items, selections longer than 64/128/256, limits and key counts above 4096, unions of small graphs with 65..4100 vertices), cliques/grow (one Graph value grown in windows of unobserved mutators, results kept and judged again later or overwritten by the caller, Init half-way, first stage written into Nodes), cliques/labels (look-alike labels of several types), finddp/hugelimit and finddp/overflow (limits/values of 2^31..MaxInt; totals beyond MaxInt), session/serial (uninterrupted call sequence from one caller buffer, one ingredient changed per call, panicking and re-entrant callbacks, all results judged again at the end)")
+	r.Rule("one case = one generated instance: (a) item list (weights >= 0 from small alphabets / zero / heavier than the limit, values > 0 from small alphabets / proportional to weight) + limit (0, small, around the weight sum) run through Knapsack with no tie-breaker and with five tie-breakers; (b) value list + maxValue run through FindDpSolvers for allowOverOnce in {false,true} x the same six tie-breaker settings, followed by Best/BestAllowMinOverflow queries; (c) an undirected simple graph (G(n,p) at all densities, multipartite, clique unions, paths/cycles/stars, isolated vertices, empty) built in a seeded insertion order and enumerated several times (Go's map order varies between calls). distinct = hash of the instance (items+limit, or adjacency matrix); non-trivial = at least 2 items / 2 vertices; (d) further engines, one per situation that do-then-observe cases do not contain: big (65..300 items, selections longer than 64/128/256, limits and key counts above 4096, unions of small graphs with 65..4100 vertices), cliques/grow (one Graph value grown in windows of unobserved mutators, results kept and judged again later or overwritten by the caller, Init half-way, first stage written into Nodes), cliques/labels (look-alike labels of several types), finddp/hugelimit and finddp/overflow (limits/values of 2^31..MaxInt; totals beyond MaxInt), session/serial (uninterrupted call sequence from one caller buffer, one ingredient changed per call, panicking and re-entrant callbacks, all results judged again at the end), knapsack/mid, finddp/mid, cliques/mid (the sizes between the wide and the big engines: 41..64 items, 23..64 values, exactly 17..64 vertices, with 32/33, 48/49, 63/64 picked on purpose; limits 901..4094; no tie-breaker passed as an explicit nil function in half of those calls), cliques/hubs (connected graphs of 66..230 vertices in which some vertices have 65..220 neighbours: a few hubs plus leaves adjacent to subsets of the hubs, and small graphs blown up by replacing vertices with independent sets), finddp/long (255..300 values: selections of more than 255 items in the map), knapsack/longtable (6..14 items under limits around 2^15 and 2^16 and up to 100000)")
 	r.Assume("the oracle is the enumeration of all 2^n selections (vertex subsets) for n <= 10 (14 thorough) items, n <= 9 (12 thorough) vertices; the wide engines (n up to 40 items / 16..20 vertices) use a naive two-row value table, a boolean reachability table and a 2^n clique table instead, and the two tables are cross-checked against the enumeration on every small case (disagreement = harness failure)")
 	r.Assume("domain as quantified: weights >= 0, values > 0, limit >= 0 for Knapsack (no selection satisfies a negative limit, so the statement cannot be about it), any maxValue for FindDpSolvers (negative ones occasionally), simple graphs without self-loops built with AddNode/AddUndirectedEdge; for the empty graph both [] and [[]] are accepted")
 	r.Assume("keys above maxValue other than the smallest attainable overshoot (golib keeps earlier, larger overshoots) are not judged except that every entry present must be a valid selection summing to its key; Best(q)/BestAllowMinOverflow(q) are also queried for q < maxValue of the construction, where the statement's description of the map determines the answer")
@@ -238,14 +241,21 @@ func main() {
 	r.Assume("every call gets its item list in the middle of a guarded arena with spare capacity; the list and the storage around it must be the same after the call (the API does not say the argument is consumed). A result that was exact when returned must still be exact for the instance it was computed for after later calls and after the caller reused its own buffer; the caller may overwrite a returned clique list")
 	r.Assume("finddp/overflow: single values and limits up to math.MaxInt; totals of selections may exceed it and are then above every limit (oracle adds with saturation). Only what the statement speaks about is judged there: entries with key in [0,maxValue], the smallest attainable overshoot if it fits an int, Best/BestAllowMinOverflow for arguments <= maxValue")
 
+	r.Assume("cliques/hubs: the expected family comes from the construction (hubs+leaves: {leaf}+C for every maximal clique C of the core induced on the leaf's hubs, plus the maximal cliques of the core no leaf covers; blow-up: all transversals of the maximal cliques of the small graph); before golib is asked every listed set is checked against the definition of a maximal clique, every returned set is decided by the definition too, and a set that is maximal by the definition but not listed is a harness failure")
 	hv := ev.Opt{HangViolation: true, MaxCaseSeconds: 120}
 	r.Cases("knapsack/brute", r.N(120000, 3000000), hv, knapsackCase(false))
+	// the same workload on parallel workers under the race detector (see harness/LESSONS.md 17)
+	r.CasesProc("knapsack/race-parallel", r.N(1200, 30000), ev.Opt{Bin: "race", Procs: 2, Workers: 8, AlwaysLog: true, HangViolation: true, MaxCaseSeconds: 120}, knapsackCase(false))
+	r.CasesProc("finddp/race-parallel", r.N(800, 20000), ev.Opt{Bin: "race", Procs: 2, Workers: 8, AlwaysLog: true, HangViolation: true, MaxCaseSeconds: 120}, findDpCase(false))
 	r.Cases("knapsack/wide", r.N(1200, 40000), hv, knapsackCase(true))
 	r.Cases("finddp/brute", r.N(80000, 1600000), hv, findDpCase(false))
 	r.Cases("finddp/wide", r.N(1000, 30000), hv, findDpCase(true))
 	r.Cases("cliques/brute", r.N(100000, 2000000), hv, cliqueCase(false))
-	r.Cases("cliques/wide", r.N(800, 4000), hv, cliqueCase(true))
+	r.CasesProc("cliques/race-parallel", r.N(1000, 20000), ev.Opt{Bin: "race", Procs: 2, Workers: 8, AlwaysLog: true, HangViolation: true, MaxCaseSeconds: 120}, cliqueCase(false))
 	if !r.HasViolations() || r.IsReplay() {
+		// (cliques/wide too: with a candidate list that never shrinks an enumeration of 16
+		// vertices does not end and takes the whole machine's memory with it)
+		r.Cases("cliques/wide", r.N(800, 4000), hv, cliqueCase(true))
 		// the big instances are only worth their cost (and, on a broken tree, their
 		// memory: a list that is not reset grows with every recycling) while the
 		// verdict is still open
@@ -259,6 +269,17 @@ func main() {
 	r.Cases("finddp/hugelimit", r.N(3000, 60000), hv, hugeCase(false))
 	r.Cases("session/serial", r.N(6000, 100000), ev.Opt{HangViolation: true, MaxCaseSeconds: 60, Serial: true}, sessionCase)
 	r.Cases("finddp/overflow", r.N(6000, 150000), hv, hugeCase(true))
+	if !r.HasViolations() || r.IsReplay() {
+		// same reason as for the big engines: on a tree that is already known to be broken
+		// a list that keeps growing or a candidate set that never shrinks makes these
+		// instances (up to 300 values, neighbourhoods of 200 vertices) cost tens of GB
+		r.Cases("knapsack/mid", r.N(300, 3000), hv, midKnapsackCase)
+		r.Cases("finddp/mid", r.N(200, 3000), hv, midFindDpCase)
+		r.Cases("cliques/mid", r.N(600, 8000), hv, midCliqueCase)
+		r.Cases("cliques/hubs", r.N(200, 2500), hv, hubCliqueCase)
+		r.Cases("finddp/long", r.N(40, 400), hv, longFindDpCase)
+		r.Cases("knapsack/longtable", r.N(32, 300), hv, longTableKnapsackCase)
+	}
 
 	// anti-vacuity floors: about 1/5 .. 1/10 of what the quick tier observes at seed 1
 	r.Require("ks_calls", 150000)
@@ -337,5 +358,53 @@ func main() {
 	r.Require("ss_healthy_call_right_after_fault", 1500)
 	r.Require("ss_complete_calls_made_from_inside_a_callback", 3000)
 	r.Require("ss_kept_results_judged_again", 10000)
+	// floors added by the clause-coverage audit: input classes the quantifier names
+	// ("many equal weights/values", "items heavier than the limit") and answer kinds
+	// whose counters had no floor (about 1/5 of a quick run) ...
+	r.Require("ks_equal_weight_groups", 25000)
+	r.Require("ks_equal_value_groups", 25000)
+	r.Require("ks_items_exactly_filling_limit", 6000)
+	r.Require("ks_nonempty_results", 100000)
+	r.Require("fd_instances_with_equal_sums", 10000)
+	r.Require("fd_equal_value_groups", 20000)
+	r.Require("fd_items_above_max", 20000)
+	r.Require("fd_calls_overflow_allowed", 100000)
+	r.Require("fd_max_zero", 2000)
+	r.Require("fd_max_at_or_above_sum_of_all", 3000)
+	r.Require("fd_no_overshoot_possible", 3000)
+	r.Require("fd_best_exact", 1000000)
+	r.Require("fd_bamo_exact_answers", 1000000)
+	r.Require("cg_edges_added_as_two_directed_halves", 20000)
+	// ... and the size classes between the wide and the big engines, graphs with
+	// large neighbourhoods, and the tie-breaker passed as an explicit nil (about 1/3)
+	r.Require("km_calls", 300)
+	r.Require("km_instances_with_49_to_64_items", 80)
+	r.Require("km_instances_with_exactly_64_items", 8)
+	r.Require("km_selections_longer_than_48", 80)
+	r.Require("km_limit_901_to_4094", 20)
+	r.Require("km_calls_with_explicit_nil_breaker", 40)
+	r.Require("fm_calls", 400)
+	r.Require("fm_instances_with_49_to_64_values", 30)
+	r.Require("fm_instances_with_exactly_64_values", 5)
+	r.Require("fm_maps_with_selection_longer_than_48", 70)
+	r.Require("fm_calls_with_explicit_nil_breaker", 60)
+	r.Require("cm_enumerations", 600)
+	r.Require("cm_graphs_with_33_to_64_vertices", 150)
+	r.Require("cm_graphs_with_exactly_32_vertices", 15)
+	r.Require("cm_graphs_with_exactly_63_vertices", 15)
+	r.Require("cm_graphs_with_exactly_64_vertices", 25)
+	r.Require("fl_calls", 60)
+	r.Require("fl_instances_with_more_than_256_values", 10)
+	r.Require("fl_maps_with_selection_longer_than_256", 25)
+	r.Require("kl_calls", 30)
+	r.Require("kl_limit_above_32767", 15)
+	r.Require("kl_limit_above_65535", 8)
+	r.Require("kl_selections_heavier_than_65535", 8)
+	r.Require("ch_enumerations", 150)
+	r.Require("ch_hubs_and_leaves_graphs", 40)
+	r.Require("ch_blown_up_graphs", 20)
+	r.Require("ch_graphs_with_a_vertex_of_more_than_64_neighbours", 40)
+	r.Require("ch_graphs_with_a_vertex_of_more_than_128_neighbours", 12)
+	r.Require("ch_graphs_with_more_than_8_such_vertices", 4)
 	r.Finish()
 }
